@@ -90,7 +90,20 @@ impl Selector {
         let epoll = &single_selector.epoll;
 
         // Wait for epoll events for at most timeout_ms milliseconds
+        #[cfg(not(may_verif))]
         let n = epoll.wait(events, timeout_ms)?;
+        // under the hooks the kernel is only polled, the waiting is virtual
+        #[cfg(may_verif)]
+        let n = if crate::verif::hooks().is_none() {
+            epoll.wait(events, timeout_ms)?
+        } else {
+            let mut n = epoll.wait(events, EpollTimeout::ZERO)?;
+            if n == 0 {
+                crate::verif::idle_wait(id, _timeout);
+                n = epoll.wait(events, EpollTimeout::ZERO)?;
+            }
+            n
+        };
         // println!("epoll_wait = {}", n);
 
         // collect coroutines
@@ -154,6 +167,8 @@ impl Selector {
         let buf = 1u64.to_le_bytes();
         let ret = write(&self.vec[id].evfd, &buf);
         trace!("wakeup id={id:?}, ret={ret:?}");
+        #[cfg(may_verif)]
+        crate::verif::wake_worker(id);
     }
 
     // register io event to the selector
